@@ -10,7 +10,7 @@ import re
 from spydrnet.util.patterns import _value_matches_pattern, _is_pattern_absolute
 
 QUICK = os.environ.get("VF_TIER", "quick") != "thorough"
-L = 3 if QUICK else 4
+L = int(os.environ.get("VF_L", "0")) or (3 if QUICK else 4)
 LIT = "aAbB*"
 RX = re.compile("[aAbB*]{0,%d}" % L)     # value domain, stated as a regular constraint (no per-character forking)
 KFIX = int(os.environ.get("VF_K", "-1"))  # one job per table entry: k is fixed per process
@@ -169,6 +169,26 @@ def h_regex_fullmatch(value: str, k: int, is_case: bool) -> bool:
     return got == _lang_nocase(k, value)
 
 
+import copy as _copy
+import spydrnet.util.patterns as _pm
+_IMPORT_STATE = {n: _copy.deepcopy(v) for n, v in vars(_pm).items()
+                 if isinstance(v, (dict, list, set)) and not n.startswith("__")}
+
+
+def _fresh_process():
+    """a history starts in a fresh process: module-level containers of the matcher's module are
+    put back to their import-time contents (anything they accumulate afterwards is query history)"""
+    for n, v in _IMPORT_STATE.items():
+        cur = getattr(_pm, n)
+        cur.clear()
+        if isinstance(cur, dict):
+            cur.update(_copy.deepcopy(v))
+        elif isinstance(cur, list):
+            cur.extend(_copy.deepcopy(v))
+        else:
+            cur |= _copy.deepcopy(v)
+
+
 def h_answers_do_not_depend_on_history(value: str, k: int, first_case: bool, is_re: bool) -> bool:
     """
     pre: RX.fullmatch(value)
@@ -178,6 +198,7 @@ def h_answers_do_not_depend_on_history(value: str, k: int, first_case: bool, is_
     """
     # the same pattern asked with different case options in one process: each answer must be
     # what a fresh process would answer (no state may leak between queries), in both orders
+    _fresh_process()
     pat = REGEXES[k] if is_re else GLOBS[k]
     r1 = bool(_value_matches_pattern(value, pat, first_case, is_re))
     r2 = bool(_value_matches_pattern(value, pat, not first_case, is_re))
